@@ -561,3 +561,267 @@ def mon_c03(net, obs, opts):
             if not (got == want or abs(got - want) <= 1e-12 * max(1, abs(want))):
                 obs.violate("load_not_reported", "%s reports %.12g, mdot*scaling=%.12g" % (name_of(net, t, idx), got, want),
                             reported=got, expected=want)
+
+
+# ------------------------------------------------------------------------------------------------
+# C10 thermal laws / C11 heat duties
+# ------------------------------------------------------------------------------------------------
+
+def thermal_streams(net, zero=1e-9):
+    """Per branch element with flow: dict(table, idx, up, down, m, tin, tout) using only result tables;
+    the upstream end is chosen by the sign of the reported flow."""
+    out = []
+    for t, idx, fk, tk in incidence(net):
+        r = net.get("res_" + t)
+        if r is None or idx not in r.index or "t_outlet_k" not in r.columns:
+            continue
+        m = float(r.at[idx, "mdot_from_kg_per_s"])
+        tout = float(r.at[idx, "t_outlet_k"])
+        if math.isnan(m) or math.isnan(tout) or abs(m) <= zero:
+            continue
+        if m > 0:
+            up, down, tin = fk, tk, float(r.at[idx, "t_from_k"])
+        else:
+            up, down, tin = tk, fk, float(r.at[idx, "t_to_k"])
+        out.append(dict(table=t, idx=idx, up=up, down=down, m=abs(m), signed_m=m, tin=tin, tout=tout))
+    return out
+
+
+def _pipe_thermal_sections(net, pipe_label):
+    from pandapipes.idx_branch import ELEMENT_IDX, FROM_NODE, TO_NODE, MDOTINIT, TOUTINIT
+    from pandapipes.idx_node import TINIT
+    from pandapipes.pf.pipeflow_setup import get_lookup
+    f, t = get_lookup(net, "branch", "from_to")["pipe"]
+    bp = net["_pit"]["branch"][f:t]
+    npit = net["_pit"]["node"]
+    rows = bp[bp[:, ELEMENT_IDX] == pipe_label]
+    secs = []
+    for r in rows:
+        m = float(r[MDOTINIT])
+        up = int(r[FROM_NODE]) if m >= 0 else int(r[TO_NODE])
+        secs.append((abs(m), float(npit[up, TINIT]), float(r[TOUTINIT])))
+    return secs
+
+
+def mon_c10(net, obs, opts, passive=False):
+    """Cooling law per flowing pipe section, energy-conserving mixing per junction, fixed feeds, bounds."""
+    fluid = net.fluid
+    cp = lambda x: float(fluid.get_heat_capacity(x))
+    amb = float(opts.get("ambient_temperature", 293.15))
+    tolT = float(opts.get("tol_T", 1e-3))
+    tight = tolT <= 1e-7
+    cool_tol = 1e-6 if tight else 20 * tolT
+    streams = thermal_streams(net)
+    by_el = {(s["table"], s["idx"]): s for s in streams}
+    tj = net.res_junction.t_k
+    # ---- cooling law
+    if has(net, "pipe"):
+        P = net.pipe
+        for idx in P.index:
+            s = by_el.get(("pipe", idx))
+            if s is None or not bool(P.at[idx, "in_service"]):
+                continue
+            n = int(P.at[idx, "sections"])
+            L = float(P.at[idx, "length_km"]) * 1000.0 / n
+            do = float(P.at[idx, "outer_diameter_mm"])
+            if math.isnan(do):
+                do = float(P.at[idx, "inner_diameter_mm"])
+            u = float(P.at[idx, "u_w_per_m2k"])
+            text = float(P.at[idx, "text_k"])
+            if math.isnan(text):
+                text = amb
+            secs = [(s["m"], s["tin"], s["tout"])] if n == 1 else _pipe_thermal_sections(net, idx)
+            if n > 1:
+                obs.count("cooling_multi_section_pipes")
+                # the pipe-level outlet must be the outlet of the section the fluid leaves through
+                last = secs[-1] if s["signed_m"] > 0 else secs[0]
+                obs.count("pipe_outlet_vs_last_section")
+                if abs(last[2] - s["tout"]) > 1e-9:
+                    obs.violate("t_outlet_not_last_section_in_flow_direction",
+                                "%s: t_outlet_k=%.9g, the section the fluid leaves through has %.9g (mdot %.3g)"
+                                % (name_of(net, "pipe", idx), s["tout"], last[2], s["signed_m"]))
+            for m, tin, tout in secs:
+                if m <= 1e-9:
+                    continue
+                c = 0.5 * (cp(tin) + cp(tout))
+                want = text + (tin - text) * math.exp(-u * math.pi * do / 1000.0 * L / (c * m))
+                obs.count("cooling_sections_reverse" if s["signed_m"] < 0 else "cooling_sections_forward")
+                if u > 0:
+                    obs.count("cooling_sections_with_loss")
+                obs.maxi("max_abs_cooling_residual_k" + ("" if tight else "_default_tol"), abs(want - tout))
+                if abs(want - tout) > cool_tol:
+                    obs.violate("cooling_law", "%s: section outlet %.9g K, cooling law gives %.9g K (Tin %.6g, Text %.5g, m %.4g)"
+                                % (name_of(net, "pipe", idx), tout, want, tin, text, m), tout=tout, expected=want)
+    # ---- mixing
+    fixed_T = {}
+    if has(net, "ext_grid"):
+        E = net.ext_grid
+        for idx in E.index:
+            if bool(E.at[idx, "in_service"]):
+                fixed_T.setdefault(int(E.at[idx, "junction"]), []).append(
+                    float(E.at[idx, "t_k"]) if "t" in str(E.at[idx, "type"]) else None)
+    for t in ("circ_pump_mass", "circ_pump_pressure"):
+        if has(net, t):
+            for idx in net[t].index:
+                if bool(net[t].at[idx, "in_service"]):
+                    fixed_T.setdefault(int(net[t].at[idx, "flow_junction"]), []).append(float(net[t].at[idx, "t_flow_k"]))
+    inflow = {}
+    for s in streams:
+        if s["down"][0] == "j":
+            inflow.setdefault(s["down"][1], []).append(s)
+    for j, lst in inflow.items():
+        if j in fixed_T or math.isnan(float(tj.at[j])):
+            continue
+        tm = float(tj.at[j])
+        right = sum(s["m"] * 0.5 * (cp(s["tout"]) + cp(tm)) * (s["tout"] - tm) for s in lst)
+        scale = sum(s["m"] * cp(tm) * (abs(s["tout"] - tm) + 1e-3) for s in lst)
+        obs.count("mixing_junctions_%s" % ("1_inflow" if len(lst) == 1 else ("2_inflows" if len(lst) == 2 else "3plus_inflows")))
+        bound = (1e-6 if tight else 50 * tolT) * scale + 1e-6
+        obs.maxi("max_rel_mixing_residual", abs(right) / scale)
+        if abs(right) > bound:
+            # classification: the heat capacity evaluated at a heat capacity
+            code = sum(s["m"] * cp(0.5 * (cp(s["tout"]) + cp(tm))) * (s["tout"] - tm) for s in lst)
+            tag = "mixing_weight_cp_of_cp" if abs(code) <= bound else "mixing_not_energy_conserving"
+            obs.violate(tag, "junction %d: sum m*cp_mean*(T_in - T_mix) = %.4g W over %d inflows (scale %.3g W)"
+                        % (j, right, len(lst), scale), junction=j, t_mix=tm,
+                        inflows=[(s["table"], str(s["idx"]), s["m"], s["tout"]) for s in lst])
+    # ---- fixed feeds
+    for j, vals in fixed_T.items():
+        vals = [v for v in vals if v is not None]
+        if not vals or j not in tj.index or math.isnan(float(tj.at[j])):
+            continue
+        if len(set(vals)) > 1:
+            obs.count("fixed_temperature_several_feeders_not_judged")
+            continue
+        # the feeder imposes its temperature on the fluid it feeds: judge when nothing else flows in
+        if any(True for s in inflow.get(j, []) if s["table"] not in ("circ_pump_mass", "circ_pump_pressure")):
+            obs.count("fixed_temperature_with_other_inflow_not_judged")
+            continue
+        obs.count("fixed_feed_temperatures")
+        if abs(float(tj.at[j]) - vals[0]) > 1e-9:
+            obs.violate("fixed_feed_temperature_not_met", "junction %d: t_k=%.9g, feeder prescribes %.9g" % (j, float(tj.at[j]), vals[0]))
+    for t in ("circ_pump_mass", "circ_pump_pressure"):
+        if has(net, t) and "res_" + t in net:
+            for idx in net[t].index:
+                s = by_el.get((t, idx))
+                if s is not None:
+                    obs.count("pump_outlet_temperatures")
+                    if abs(s["tout"] - float(net[t].at[idx, "t_flow_k"])) > 1e-9:
+                        obs.violate("pump_outlet_temperature_not_met", "%s: t_outlet_k=%.9g, t_flow_k=%.9g"
+                                    % (name_of(net, t, idx), s["tout"], float(net[t].at[idx, "t_flow_k"])))
+    # ---- bounds without heat sources
+    if passive:
+        feeds = [v for vals in fixed_T.values() for v in vals if v is not None]
+        texts = [amb]
+        if has(net, "pipe"):
+            texts += [float(x) for x in net.pipe.text_k.values if not math.isnan(float(x))]
+        lo, hi = min(feeds + texts) - 1e-6, max(feeds + texts) + 1e-6
+        p = net.res_junction.p_bar
+        for j in tj.index:
+            if math.isnan(float(p.at[j])):
+                continue
+            obs.count("temperature_bounds_checked")
+            v = float(tj.at[j])
+            if not (lo <= v <= hi):
+                obs.violate("temperature_out_of_bounds", "junction %d: %.6f K outside [%.6f, %.6f]" % (j, v, lo, hi))
+        for s in streams:
+            obs.count("temperature_bounds_checked")
+            if not (lo <= s["tout"] <= hi):
+                obs.violate("temperature_out_of_bounds", "%s[%s].t_outlet_k=%.6f outside [%.6f, %.6f]"
+                            % (s["table"], s["idx"], s["tout"], lo, hi))
+    return streams
+
+
+def mon_c11(net, obs, opts, mode):
+    """Heat duties of exchangers, consumers and circulation pumps."""
+    fluid = net.fluid
+    cp = lambda x: float(fluid.get_heat_capacity(x))
+    tolT = float(opts.get("tol_T", 1e-3))
+    tight = tolT <= 1e-7
+    streams = thermal_streams(net)
+    by_el = {(s["table"], s["idx"]): s for s in streams}
+    rt = 1e-6 if tight else 1e-3
+
+    def duty(s):
+        return s["m"] * 0.5 * (cp(s["tin"]) + cp(s["tout"])) * (s["tin"] - s["tout"])
+
+    if has(net, "heat_exchanger"):
+        T = net.heat_exchanger
+        for idx in T.index:
+            s = by_el.get(("heat_exchanger", idx))
+            if s is None or not bool(T.at[idx, "in_service"]):
+                continue
+            q, want = duty(s), float(T.at[idx, "qext_w"])
+            obs.count("exchanger_duties" + ("_negative" if want < 0 else ""))
+            obs.maxi("max_rel_duty_dev", abs(q - want) / max(abs(want), 1.0))
+            if abs(q - want) > rt * max(abs(want), 1.0) + 1e-3:
+                obs.violate("exchanger_duty", "%s: qext_w=%.8g but m*cp_mean*(Tin-Tout)=%.8g"
+                            % (name_of(net, "heat_exchanger", idx), want, q), qext_w=want, duty=q, stream=s)
+    if has(net, "heat_consumer") and "res_heat_consumer" in net:
+        T, R = net.heat_consumer, net.res_heat_consumer
+        for idx in T.index:
+            s = by_el.get(("heat_consumer", idx))
+            if s is None or not bool(T.at[idx, "in_service"]):
+                continue
+            sp = {k: float(T.at[idx, k]) for k in ("qext_w", "controlled_mdot_kg_per_s", "deltat_k", "treturn_k")}
+            given = {k for k, v in sp.items() if not math.isnan(v)}
+            cmode = "MF_DT" if given == {"controlled_mdot_kg_per_s", "deltat_k"} else \
+                "MF_TR" if given == {"controlled_mdot_kg_per_s", "treturn_k"} else \
+                "QE_MF" if given == {"qext_w", "controlled_mdot_kg_per_s"} else \
+                "QE_DT" if given == {"qext_w", "deltat_k"} else "QE_TR" if given == {"qext_w", "treturn_k"} else "other"
+            q_rep = float(R.at[idx, "qext_w"])
+            dt_rep = float(R.at[idx, "deltat_k"])
+            q = duty(s)
+            obs.count("consumer_duties_%s_%s" % (cmode, mode))
+            el = name_of(net, "heat_consumer", idx)
+            if abs(dt_rep - (s["tin"] - s["tout"])) > 1e-9:
+                obs.violate("consumer_deltat_inconsistent", "%s: deltat_k=%.9g but t_in - t_outlet = %.9g" % (el, dt_rep, s["tin"] - s["tout"]))
+            if abs(q - q_rep) > rt * max(abs(q_rep), 1.0) + 1e-3:
+                tag = "qe_tr_consumer_sequential_inconsistent" if (cmode in ("QE_TR", "QE_DT") and mode != "bidirectional") else "consumer_duty"
+                obs.violate(tag, "%s (%s, %s): reported qext_w=%.8g but m*cp_mean*deltaT=%.8g" % (el, cmode, mode, q_rep, q),
+                            qext_w=q_rep, duty=q, mdot=s["m"], deltat=dt_rep)
+            # set-points
+            if "controlled_mdot_kg_per_s" in given or mode == "bidirectional":
+                checks = []
+                if "controlled_mdot_kg_per_s" in given:
+                    checks.append(("mdot", s["signed_m"], sp["controlled_mdot_kg_per_s"], 1e-9))
+                if "qext_w" in given:
+                    checks.append(("qext_w", q_rep, sp["qext_w"], 1e-9))
+                if "deltat_k" in given:
+                    checks.append(("deltat_k", dt_rep, sp["deltat_k"], rt))
+                if "treturn_k" in given:
+                    checks.append(("treturn_k", s["tout"], sp["treturn_k"], 1e-7))
+                for nm, got, want, tol in checks:
+                    obs.count("consumer_setpoints_checked")
+                    if abs(got - want) > tol * max(1.0, abs(want)):
+                        obs.violate("consumer_setpoint_" + nm, "%s (%s, %s): %s=%.9g, set %.9g" % (el, cmode, mode, nm, got, want))
+    # ---- loop closure per circulation pump (single-pump loops only)
+    pumps = [(t, idx) for t in ("circ_pump_mass", "circ_pump_pressure") if has(net, t) for idx in net[t].index
+             if bool(net[t].at[idx, "in_service"]) and (t, idx) in by_el]
+    if len(pumps) == 1 and not has(net, "ext_grid"):
+        t, idx = pumps[0]
+        q_pump = float(net["res_" + t].at[idx, "qext_w"])
+        parts = 0.0
+        mag = 0.0
+        temps = []
+        for s in streams:
+            if s["table"] in ("circ_pump_mass", "circ_pump_pressure"):
+                continue
+            d = duty(s)
+            parts += d
+            mag += abs(d)
+            temps += [s["tin"], s["tout"]]
+        # mixing of streams of different temperature with cp(T) is not exactly enthalpy conserving when the duties
+        # are written with mean heat capacities: honest tolerance = relative cp spread over the loop's range
+        cps = [cp(x) for x in (min(temps), max(temps), 0.5 * (min(temps) + max(temps)))]
+        spread = (max(cps) - min(cps)) / min(cps)
+        tol = (spread + 1e-4) * max(mag, abs(q_pump))
+        obs.count("loop_closures")
+        obs.maxi("max_loop_closure_rel_dev", abs(-q_pump - parts) / max(mag, 1.0))
+        # the pump adds heat: its own duty m*cp_mean*(Tin - Tout) is negative; reported qext_w is the heat fed in
+        s = by_el[(t, idx)]
+        own = -duty(s)
+        if abs(q_pump - parts) > tol:
+            tag = "circ_pump_qext_cpT_difference" if abs(own - parts) <= tol else "loop_heat_not_closed"
+            obs.violate(tag, "%s reports %.8g W, consumers+exchangers+pipe losses take %.8g W (pump m*cp_mean*dT=%.8g, tol %.3g)"
+                        % (name_of(net, t, idx), q_pump, parts, own, tol), qext_w=q_pump, extracted=parts, own=own)
